@@ -704,3 +704,47 @@ def mon_restore(case):
                 if tok == "good" and st == "200" and k != key:
                     out.append(f"step {i+1}: credentials served are {k}, the most recent restore supplied {key}")
     return out
+
+
+def mon_agent_final(case):
+    """C13 (model-free): an accepted init-error or exit-error report is final — in the same sandbox
+    generation no later step answers that extension's next or register with 200. (A step is one
+    op followed by quiescence; only answers of strictly later steps are judged, so the order inside
+    one step does not matter.)"""
+    out = []
+    final = {}      # name -> (step, kind)
+    for i, (ws, obs, side) in enumerate(case["steps"]):
+        es = entries(obs)
+        if any(e.startswith("ev initStart") or e.startswith("sup exec:runtime-") for e in es):
+            final = {}      # new generation: every extension object is new
+        for e in es:
+            m = re.match(r"([A-Za-z0-9_]+)\.(next|register)=200", e)
+            if m and m.group(1) in final and final[m.group(1)][0] < i:
+                st, kind = final[m.group(1)]
+                out.append(f"step {i+1}: {e.split(',')[0]} answered with success although the {kind} report of {m.group(1)} was accepted at step {st+1} (the report is final)")
+        for e in es:
+            m = re.match(r"([A-Za-z0-9_]+)\.(exiterror|initerror)=202", e)
+            if m and m.group(1) not in final:
+                final[m.group(1)] = (i, m.group(2))
+    return out
+
+
+def mon_stale_id(case):
+    """C13 (model-free): every call after register must carry a KNOWN identifier — a call carrying
+    the identifier issued to that name in an earlier sandbox generation (harness mode `oldid`) is
+    answered 403 Extension.UnknownExtensionIdentifier, whatever else is going on."""
+    out = []
+    for i, (ws, obs, side) in enumerate(case["steps"]):
+        if ws[0] not in ("ext", "int") or len(ws) < 3:
+            continue
+        what = None
+        if ws[2] == "nextoldid":
+            what = "next"
+        elif ws[2] in ("initerror", "exiterror") and len(ws) > 4 and ws[4] == "oldid":
+            what = ws[2]
+        if not what:
+            continue
+        for e in entries(obs):
+            if e.startswith(f"{ws[1]}.{what}=") and not e.startswith(f"{ws[1]}.{what}=403,Extension.UnknownExtensionIdentifier"):
+                out.append(f"step {i+1}: {ws[1]}'s {what} carrying the identifier of an earlier generation was answered {e.split('=',1)[1]}, want 403 Extension.UnknownExtensionIdentifier")
+    return out
